@@ -228,7 +228,11 @@ def obj_resources(l, enc):
 
 def obj_tb(t):
     T = _mods()[2]
-    return T.TaggedBlock(cc4(t[0]), key_obj(t[1]), bytes(t[2]))
+    k = key_obj(t[1])
+    data = bytes(t[2])
+    if not data and T.TYPES.get(k) is not None and T.TYPES[k].__name__ == "EmptyElement":
+        data = T.TYPES[k]()              # what the reader builds for these keys (Mtrn, Mt16, Mt32, ...)
+    return T.TaggedBlock(cc4(t[0]), k, data)
 
 
 def obj_tbs(l):
@@ -585,7 +589,7 @@ def BIG_KEYS():
     return _BIG
 
 
-def wf_lami(version, l, restlen, mg=True, gg=True):
+def wf_lami(version, l, restlen, mg=True, gg=False):
     li, g, bs = l
     if li is None:
         return g is None and bs is None
@@ -599,8 +603,9 @@ def wf_lami(version, l, restlen, mg=True, gg=True):
     return ok
 
 
-def wf_case(case, mg=True, gg=True):
-    """twin of Corr.elem_wf; mg / gg = False drop the guards of the two refuted classes (F-C01-3 / F-C01-2)"""
+def wf_case(case, mg=True, gg=False):
+    """twin of Corr.elem_wf; mg = False drops the guard of the refuted class F-C01-3; gg = True ADDS the legacy guard of
+    F-C01-2 (the 17-byte probe of the reader before /repo f3a2729; no longer part of Model.wf_lami)"""
     kind, a, d = case
     v = a.get("version", 1)
     if kind in ("header", "cmd", "res", "tb", "img"):
@@ -759,10 +764,15 @@ def unknown_key(rng):
             return k
 
 
+EMPTY_KEYS = [b"Mtrn", b"Mt16", b"Mt32", b"nvrt", b"patt"]         # keys registered for EmptyElement: no payload
+
+
 def g_tb(rng, big_ok=True):
     r = rng.random()
     if r < 0.25:
         key = rng.choice(NOCLASS_KEYS)
+    elif r < 0.4:
+        return [rng.choice([SIG_8BIM, SIG_8BIM, SIG_8B64]), fcc(rng.choice(EMPTY_KEYS)), b""]
     else:
         key = unknown_key(rng)
     return [rng.choice([SIG_8BIM, SIG_8BIM, SIG_8B64]), fcc(key), g_payload(rng)]
@@ -957,9 +967,11 @@ def deform(rng, kind, d):
     def do_tbs(l):
         # (a repeated key cannot be built: the dict-like containers collapse it at construction;
         #  repeated keys are exercised on the reader side by the byte-level streams)
-        if l:
-            l[0][2] = l[0][2] + b"\x01"      # odd/changed payload only
-            return "tbs:payload-grown"
+        empties = {fcc(k) for k in EMPTY_KEYS}
+        for t in l:
+            if t[1] not in empties:         # (an EmptyElement key has no payload to grow)
+                t[2] = t[2] + b"\x01"        # odd/changed payload only
+                return "tbs:payload-grown"
         return None
 
     def do_rec(r):
@@ -1100,11 +1112,14 @@ WALK_BIG_KEYS = {fcc(k) for k in (b"LMsk", b"Lr16", b"Lr32", b"Layr", b"Mt16", b
                                   b"artd")}
 
 
+LAYER_INFO_KEYS = {fcc(b"Lr16"), fcc(b"Lr32")}
+
+
 class WalkError(Exception):
     pass
 
 
-def walk(data, check_rle=False):
+def walk(data, check_rle=False, descend=False):
     data = bytes(data)
     n = len(data)
     out = []
@@ -1126,6 +1141,98 @@ def walk(data, check_rle=False):
     def s32(p, what, end=None):
         v = u(p, 4, what, end)
         return v - (1 << 32) if v >= (1 << 31) else v
+
+    def li_body(p, li_end):
+        """count, records, channel image data, rounding: the content of a layer info (also of a Lr16 / Lr32 / Layr block)"""
+        count = s16(p, "layer count", li_end)
+        p += 2
+        recs = []
+        for _ in range(abs(count)):
+            st = p
+            rec_slot = len(out)
+            out.append(None)                     # the record entry precedes its parts (pre-order)
+            top, left, bottom, right = (s32(p + 4 * i, "layer rectangle", li_end) for i in range(4))
+            nch = u(p + 16, 2, "channel count", li_end)
+            p += 18
+            chans = []
+            for _c in range(nch):
+                cid = s16(p, "channel id", li_end)
+                clen = u(p + 2, nb, "channel length", li_end)
+                chans.append((cid, clen))
+                p += 2 + nb
+            if u(p, 4, "blend signature", li_end) != SIG_8BIM:
+                raise WalkError("blend mode signature at %d" % p)
+            p += 12                      # signature, key, opacity, clipping, flags, filler
+            xl = u(p, 4, "extra data length", li_end)
+            p += 4
+            x_end = p + xl
+            if x_end > li_end:
+                raise WalkError("layer record extra data overruns the layer info")
+            ml = u(p, 4, "mask data length", x_end)
+            if p + 4 + ml > x_end:
+                raise WalkError("mask data overruns the extra data")
+            mask_rect = None
+            if ml >= 16:
+                mask_rect = tuple(s32(p + 4 + 4 * i, "mask rectangle") for i in range(4))
+            out.append((K_MASK, p, 4 + ml))
+            p += 4 + ml
+            rl = u(p, 4, "blending ranges length", x_end)
+            if p + 4 + rl > x_end:
+                raise WalkError("blending ranges overrun the extra data")
+            if rl % 8:
+                raise WalkError("blending ranges length %d is not a multiple of 8" % rl)
+            out.append((K_RANGES, p, 4 + rl))
+            p += 4 + rl
+            nl = u(p, 1, "layer name length", x_end)
+            q = p + 1 + nl
+            q += (-(1 + nl)) % 4
+            if q > x_end:
+                raise WalkError("layer name overruns the extra data")
+            out.append((K_NAME, p, q - p))
+            p = q
+            while x_end - p >= 12:
+                bst = p
+                sg = u(p, 4, "block signature", x_end)
+                if sg not in (SIG_8BIM, SIG_8B64):
+                    raise WalkError("tagged block signature at %d" % p)
+                key = u(p + 4, 4, "block key", x_end)
+                lb = 8 if (version == 2 and key in WALK_BIG_KEYS) else 4
+                bl = u(p + 8, lb, "block length", x_end)
+                p += 8 + lb + bl
+                if p > x_end:
+                    raise WalkError("tagged block at %d overruns the extra data" % bst)
+                out.append((K_LTB, bst, p - bst))
+            if x_end - p >= 2 or any(data[p:x_end]):
+                raise WalkError("extra data of the layer record at %d: %d unexplained bytes" % (st, x_end - p))
+            p = x_end
+            out[rec_slot] = (K_RECORD, st, p - st)
+            recs.append(((top, left, bottom, right), chans, mask_rect))
+        for rect, chans, mask_rect in recs:
+            for cid, clen in chans:
+                if clen < 2:
+                    raise WalkError("channel length %d < 2" % clen)
+                if p + clen > li_end:
+                    raise WalkError("channel data overruns the layer info")
+                comp = u(p, 2, "channel compression", li_end)
+                if comp > 3:
+                    raise WalkError("compression %d" % comp)
+                if check_rle and comp == 1:
+                    r = rect if cid >= -1 else (mask_rect if cid == -2 else None)
+                    if r is not None:
+                        rows = max(r[2] - r[0], 0)
+                        if max(r[3] - r[1], 0) == 0:
+                            rows = rows      # zero-width: the table is still there
+                        cw = 2 if version == 1 else 4
+                        if 2 + rows * cw > clen:
+                            raise WalkError("RLE row table of channel at %d longer than the channel" % p)
+                        tot = sum(int.from_bytes(data[p + 2 + i * cw:p + 2 + (i + 1) * cw], "big") for i in range(rows))
+                        if 2 + rows * cw + tot != clen:
+                            raise WalkError("RLE row table at %d sums to %d, channel holds %d" % (p, tot, clen - 2 - rows * cw))
+                out.append((K_CHANNEL, p, clen))
+                p += clen
+        if li_end - p >= 4 or any(data[p:li_end]):
+            raise WalkError("layer info: %d unexplained bytes before its end" % (li_end - p))
+        return p
 
     # ---- header
     need(0, 26, "header")
@@ -1183,94 +1290,7 @@ def walk(data, check_rle=False):
         p += nb
         li_end = p + LL
         if LL > 0:
-            count = s16(p, "layer count", li_end)
-            p += 2
-            recs = []
-            for _ in range(abs(count)):
-                st = p
-                rec_slot = len(out)
-                out.append(None)                     # the record entry precedes its parts (pre-order)
-                top, left, bottom, right = (s32(p + 4 * i, "layer rectangle", li_end) for i in range(4))
-                nch = u(p + 16, 2, "channel count", li_end)
-                p += 18
-                chans = []
-                for _c in range(nch):
-                    cid = s16(p, "channel id", li_end)
-                    clen = u(p + 2, nb, "channel length", li_end)
-                    chans.append((cid, clen))
-                    p += 2 + nb
-                if u(p, 4, "blend signature", li_end) != SIG_8BIM:
-                    raise WalkError("blend mode signature at %d" % p)
-                p += 12                      # signature, key, opacity, clipping, flags, filler
-                xl = u(p, 4, "extra data length", li_end)
-                p += 4
-                x_end = p + xl
-                if x_end > li_end:
-                    raise WalkError("layer record extra data overruns the layer info")
-                ml = u(p, 4, "mask data length", x_end)
-                if p + 4 + ml > x_end:
-                    raise WalkError("mask data overruns the extra data")
-                mask_rect = None
-                if ml >= 16:
-                    mask_rect = tuple(s32(p + 4 + 4 * i, "mask rectangle") for i in range(4))
-                out.append((K_MASK, p, 4 + ml))
-                p += 4 + ml
-                rl = u(p, 4, "blending ranges length", x_end)
-                if p + 4 + rl > x_end:
-                    raise WalkError("blending ranges overrun the extra data")
-                if rl % 8:
-                    raise WalkError("blending ranges length %d is not a multiple of 8" % rl)
-                out.append((K_RANGES, p, 4 + rl))
-                p += 4 + rl
-                nl = u(p, 1, "layer name length", x_end)
-                q = p + 1 + nl
-                q += (-(1 + nl)) % 4
-                if q > x_end:
-                    raise WalkError("layer name overruns the extra data")
-                out.append((K_NAME, p, q - p))
-                p = q
-                while x_end - p >= 12:
-                    bst = p
-                    sg = u(p, 4, "block signature", x_end)
-                    if sg not in (SIG_8BIM, SIG_8B64):
-                        raise WalkError("tagged block signature at %d" % p)
-                    key = u(p + 4, 4, "block key", x_end)
-                    lb = 8 if (version == 2 and key in WALK_BIG_KEYS) else 4
-                    bl = u(p + 8, lb, "block length", x_end)
-                    p += 8 + lb + bl
-                    if p > x_end:
-                        raise WalkError("tagged block at %d overruns the extra data" % bst)
-                    out.append((K_LTB, bst, p - bst))
-                if x_end - p >= 2 or any(data[p:x_end]):
-                    raise WalkError("extra data of the layer record at %d: %d unexplained bytes" % (st, x_end - p))
-                p = x_end
-                out[rec_slot] = (K_RECORD, st, p - st)
-                recs.append(((top, left, bottom, right), chans, mask_rect))
-            for rect, chans, mask_rect in recs:
-                for cid, clen in chans:
-                    if clen < 2:
-                        raise WalkError("channel length %d < 2" % clen)
-                    if p + clen > li_end:
-                        raise WalkError("channel data overruns the layer info")
-                    comp = u(p, 2, "channel compression", li_end)
-                    if comp > 3:
-                        raise WalkError("compression %d" % comp)
-                    if check_rle and comp == 1:
-                        r = rect if cid >= -1 else (mask_rect if cid == -2 else None)
-                        if r is not None:
-                            rows = max(r[2] - r[0], 0)
-                            if max(r[3] - r[1], 0) == 0:
-                                rows = rows      # zero-width: the table is still there
-                            cw = 2 if version == 1 else 4
-                            if 2 + rows * cw > clen:
-                                raise WalkError("RLE row table of channel at %d longer than the channel" % p)
-                            tot = sum(int.from_bytes(data[p + 2 + i * cw:p + 2 + (i + 1) * cw], "big") for i in range(rows))
-                            if 2 + rows * cw + tot != clen:
-                                raise WalkError("RLE row table at %d sums to %d, channel holds %d" % (p, tot, clen - 2 - rows * cw))
-                    out.append((K_CHANNEL, p, clen))
-                    p += clen
-            if li_end - p >= 4 or any(data[p:li_end]):
-                raise WalkError("layer info: %d unexplained bytes before its end" % (li_end - p))
+            p = li_body(p, li_end)
         p = li_end
         if end - p >= 4:
             gl = u(p, 4, "global layer mask info length", end)
@@ -1291,6 +1311,9 @@ def walk(data, check_rle=False):
                 if p > end:
                     raise WalkError("tagged block at %d overruns the section" % bst)
                 out.append((K_GTB, bst, p - bst))
+                if descend and key in LAYER_INFO_KEYS and bl > 0:
+                    # "Layer info for 16 / 32 bit documents: layer count, layer records, channel image data" - no length of its own
+                    li_body(bst + 8 + lb, bst + 8 + lb + bl)
         if p != end:
             raise WalkError("layer and mask information: %d unexplained bytes" % (end - p))
     # ---- image data
@@ -2324,3 +2347,101 @@ def pattern_of_obj(p):
     return [p.version, int(p.image_mode), list(p.point), str_to_units(p.name), p.pattern_id.encode("ascii"),
             None if p.color_table is None else [list(c) for c in p.color_table],
             [p.data.version, list(p.data.rectangle), [vma(a) for a in p.data.channels]]]
+
+
+# ----------------------------------------------------------------------------- documents whose layers live in a Lr16 / Lr32 block
+def obj_li_block(l, enc="macroman"):
+    """LayerInfoBlock (payload of the Lr16 / Lr32 tagged block) from a li desc"""
+    L = _mods()[1]
+    recs = None if l[1] is None else L.LayerRecords([obj_rec(r, enc) for r in l[1]])
+    chans = None if l[2] is None else L.ChannelImageData([L.ChannelDataList([obj_cd(c) for c in cl]) for cl in l[2]])
+    return L.LayerInfoBlock(l[0], recs, chans)
+
+
+def g_lr_case(rng, version, pad):
+    """[psd desc (16/32 bit, global blocks present), li desc with stale channel lengths, key]"""
+    enc = "macroman"
+    d = g_psd(rng, enc, version, maxlayers=2)
+    depth = rng.choice([16, 32])
+    d[0][5] = depth
+    if d[3][0] is None:
+        d[3] = [[0, None, None], None, []]
+    if d[3][1] is None:
+        d[3][1] = [None, 0, 128]
+    d[3][2] = [t for t in (d[3][2] or []) if t[1] not in (fcc(b"Lr16"), fcc(b"Lr32"))]
+    while True:
+        li = g_li(rng, enc, 3)
+        if li[0] != 0:
+            break
+    return ("psdlr", {"version": version, "padding": pad, "encoding": enc}, [d, li, fcc(b"Lr16" if depth == 16 else b"Lr32")])
+
+
+def build_lr_psd(case):
+    _, a, (d, li, key) = case
+    T = _mods()[2]
+    psd = obj_psd(d, a["encoding"])
+    blk = T.TaggedBlock(b"8BIM", key_obj(key), obj_li_block(li, a["encoding"]))
+    psd.layer_and_mask_information.tagged_blocks[blk.key] = blk
+    return psd, blk
+
+
+def run_lr_case(case, exc_code):
+    """write the document, read it back; -> dict(bytes, written, obj, block, reread, eq, rewrite_same, err, stage)"""
+    r = {"bytes": None, "stage": None, "err": None}
+    try:
+        psd, blk = build_lr_psd(case)
+    except Exception as e:
+        r.update(stage="build", err=e)
+        return r
+    a = case[1]
+    f = io.BytesIO()
+    try:
+        n = psd.write(f, a["encoding"], padding=a["padding"])
+    except Exception as e:
+        r.update(stage="write", err=e)
+        return r
+    b = f.getvalue()
+    r.update(bytes=b, written=n, obj=psd, block=blk)
+    try:
+        y = type(psd).frombytes(b, a["encoding"])
+        r["reread"] = y
+        r["eq"] = bool(y == psd)
+        r["rewrite_same"] = y.tobytes(a["encoding"], padding=a["padding"]) == b
+    except Exception as e:
+        r.update(stage="read", err=e, eq=False, rewrite_same=False)
+    return r
+
+
+def stale_channel_lengths(li_obj):
+    """[(layer index, channel index, stored length, 2 + len(data))] where a record's channel length is not truthful"""
+    out = []
+    if li_obj is None or not li_obj.layer_records or not li_obj.channel_image_data:
+        return out
+    for i, (rec, chans) in enumerate(zip(li_obj.layer_records, li_obj.channel_image_data)):
+        for j, (ci, cd) in enumerate(zip(rec.channel_info, chans)):
+            if ci.length != 2 + len(cd.data):
+                out.append((i, j, ci.length, 2 + len(cd.data)))
+    return out
+
+
+# ----------------------------------------------------------------------------- every registered payload class inside its container
+def typed_container_cases():
+    """yield (what, container object, write args, read args): for every key of image_resources.TYPES and of
+    tagged_blocks.TYPES a default instance (and, for list-like classes, the empty instance) of the registered class as the
+    payload of an ImageResource / TaggedBlock - the round trip must go through the container's key dispatch"""
+    from psd_tools.psd import image_resources as R, tagged_blocks as T
+
+    def instances(cls):
+        try:
+            yield "default", cls()
+        except Exception:
+            return
+
+    for key, cls in sorted(R.TYPES.items(), key=lambda kv: int(kv[0])):
+        for how, obj in instances(cls):
+            yield ("resource %d %s %s" % (int(key), cls.__name__, how), R.ImageResource(b"8BIM", key, "", obj), ("macroman",), ("macroman",), obj)
+    for key, cls in sorted(T.TYPES.items(), key=lambda kv: kv[0].value):
+        for how, obj in instances(cls):
+            for v, pad in ((1, 1), (2, 4), (2, 1)):
+                yield ("block %s %s %s v%d pad%d" % (key.value.decode("ascii"), cls.__name__, how, v, pad),
+                       T.TaggedBlock(b"8BIM", key, obj), (v, pad), (v, pad), obj)
